@@ -23,7 +23,11 @@ const c01CommitCancelRule = "family commit-cancel: the COMMIT of a changed 40-re
 	"oracle: an error means every file is byte-identical to the last commit, success means the files of the uninterrupted COMMIT"
 
 func init() {
-	core.Extend("C01", c01CommitCancelRule, func(c *core.Ctx) { c01CommitCancelRun(c, "C01") })
+	core.Extend("C01", c01CommitCancelRule, func(c *core.Ctx) {
+		if !c01FamilyOff("commit-cancel") {
+			c01CommitCancelRun(c, "C01")
+		}
+	})
 }
 
 var c01CommitCancelFormats = []string{"CSV", "TSV", "FIXED", "JSON", "JSONL", "LTSV", "GFM", "ORG", "BOX", "TEXT"}
